@@ -141,6 +141,16 @@ def abnormal(res):
     return bad
 
 
+def iter_contract(res):
+    """the harness drives every record-set iterator step by step and reports a broken contract (size hint not
+    bracketing the remaining count, None too early / too late / not repeated, len() != number of items)"""
+    bad = []
+    for i, l in enumerate(res['impl']):
+        if 'set-iter-contract-broken' in l or 'set-len-mismatch' in l:
+            bad.append('op#%d record-set iterator breaks the iterator contract: %s' % (i, l[:60]))
+    return bad
+
+
 def mix_owned(rng, ops):
     return [('O' if (o == 'N' and rng.chance(1, 5)) else o) for o in ops]
 
@@ -208,7 +218,15 @@ class C03(Prop):
                 inputs.append((f, t))
         for f, t in inputs:
             k = gen.n_items_bound(f, t)
-            for which, ops in (('n', ['N'] * k), ('s', ['S0'] * k)):
+            hists = [('n', ['N'] * k), ('s', ['S0'] * k)]
+            pos = gen.record_positions(f, t)
+            if len(t) > 4 and pos:
+                # reading, then seeking to record positions (first, last, a middle one), each followed by reads:
+                # what is read after a seek must not depend on how the source splits its data either
+                mid = pos[len(pos) // 2]
+                hists.append(('k', ['N', 'P', 'N', 'K%d.%d' % pos[0], 'N', 'P', 'N', 'K%d.%d' % pos[-1], 'N', 'P', 'N',
+                                    'K%d.%d' % mid, 'N', 'P', 'N', 'N']))
+            for which, ops in hists:
                 if which == 's' and len(t) <= 4:
                     continue
                 for cap, rs, pol in self.configs(len(t)):
@@ -235,7 +253,7 @@ class C03(Prop):
 
             def obs(r):
                 if not sets:
-                    return [full_proj(parse_line(l)) for l in r['impl']]
+                    return [full_proj(parse_line(l)) for l in r['impl'][:claimed_len(r)]]
                 # set reads: batch boundaries depend on the configuration by design; the
                 # concatenated records, the error and the end signal must agree
                 recs, tail = [], []
@@ -319,7 +337,7 @@ class C04(Prop):
 
     def oracle(self, res):
         f = fmt_of(res['case'])
-        return abnormal(res) + oracles.cursor_check(f, res, level='kind', check_pos=False) + set_discipline(res)
+        return abnormal(res) + oracles.cursor_check(f, res, level='kind', check_pos=False) + set_discipline(res) + iter_contract(res)
 
     def rule(self, tier):
         return ('structured random files x random histories (<= 12 ops over next, records(), read_record_set, '
@@ -492,7 +510,7 @@ class C17(Prop):
 
 class C20(Prop):
     id = 'C20'
-    fmts = ('fa',)
+    fmts = ('fa', 'fq')
 
     def cases(self, tier, rng):
         import itertools
@@ -511,13 +529,27 @@ class C20(Prop):
             t = gen.fasta_file(rng, cap)
             steps = ''.join(rng.choice('fbl') for _ in range(rng.range(1, 9)))
             out.append(gen.mkcase('fa', cap, t, None, None, 'std', ['M' + steps] * rng.range(1, 3) + ['O', 'O', 'O', 'O', 'O', 'O', 'O', 'O']))
+        # record-set iterators (both formats): sets filled, iterated, refilled with fewer / more records (the FASTA
+        # set keeps stale entries), exact counts; the harness checks size_hint / None / fusedness at every step
+        for f in ('fa', 'fq'):
+            for _ in range(300 if tier == 'quick' else 3000):
+                cap = rng.choice([3, 5, 8, 16, 32, 64, 200])
+                t = gen.fasta_file(rng, cap, nrec=rng.range(1, 9)) if f == 'fa' else gen.fastq_file(rng, cap, nrec=rng.range(1, 9))
+                ops = []
+                for _k in range(rng.range(2, 7)):
+                    ops.append(rng.choice(['S0', 'S0', 'S1', 'E0.%d' % rng.range(1, 4), 'E1.1', 'N']))
+                    if rng.chance(2, 3):
+                        ops.append(rng.choice(['I0', 'I1']))
+                out.append(gen.mkcase(f, cap, t, gen.rnd_chunking(rng, len(t)), None, 'std', ops + ['S0', 'I0', 'I1']))
         return out
 
     def project(self, pl):
         return full_proj(pl)
 
     def oracle(self, res):
-        bad = abnormal(res)
+        bad = abnormal(res) + iter_contract(res)
+        if fmt_of(res['case']) != 'fa' or not any(o.startswith('M') or o == 'O' for o in res['case'].split(' ')[6].split(',')):
+            return bad
         items = oracles.parse_spec('fa', res['spec'])
         k = 0
         ended = False
@@ -706,6 +738,54 @@ class C10(Prop):
                 bad.append('%s: sequence line longer than the wrap width %d' % (k, w))
             elif i < len(lines) - 1 and len(l) != w:
                 bad.append('%s: line %d has length %d, width is %d and it is not the last line' % (k, i, len(l), w))
+
+    def extra(self, tier, rng, stats):
+        """the record METHODS on parsed records (RefRecord::write / write_wrap, set members): their sequence is
+        spread over several lines of the buffer.  All FASTA texts up to a small length (so that raw sequences
+        shorter than the wrap width with inner line ends occur) and random multi-line files, read with next()
+        and record sets; model and implementation must agree on the written bytes, and the bytes written by
+        write_wrap(3) must be the header, then the concatenated sequence in lines of width 3."""
+        cases = gen.exhaustive('fa', 6 if tier == 'quick' else 7, caps=[64], chunks=[[]])
+        for _ in range(400 if tier == 'quick' else 5000):
+            cap = rng.choice([5, 16, 64])
+            cases.append(gen.mkcase('fa', cap, gen.fasta_file(rng, rng.choice([2, 3, 4, 6])), None, None, 'std',
+                                    rng.choice([['N'] * 8, ['S0', 'N', 'S0', 'I0', 'N', 'N']])))
+        rs = vlib.run_cases(cases, self.id + '_rec', model=True)
+        F = []
+        for r in rs:
+            stats['evaluations'] += 1
+            bad = []
+            for i, l in enumerate(r['impl']):
+                pl = parse_line(l)
+                dumps = [pl['out']] if pl['kind'] == 'rec' else (set_records(pl['out']) or []) if pl['kind'] == 'set' else []
+                for d in dumps:
+                    f = rec_fields(d)
+                    if 'ww' not in f or 'own' not in f:
+                        continue
+                    stats['distinct_nontrivial'] += 1
+                    head, seq = [bytes.fromhex(x) for x in f['own'].split('.')]
+                    ww = bytes.fromhex(f['ww'])
+                    hl, _, body = ww.partition(b'\n')
+                    if hl != b'>' + head:
+                        bad.append('op#%d write_wrap: header line differs from the record header' % i)
+                    if body.replace(b'\n', b'') != seq:
+                        bad.append('op#%d write_wrap: the written sequence differs from the record sequence' % i)
+                    self.check_wrap(bad, 'op#%d write_wrap(3) of a parsed record' % i, body, 3)
+                    w = bytes.fromhex(f['w'])
+                    if w != b'>' + head + b'\n' + seq + b'\n':
+                        bad.append('op#%d write: not header line + sequence line' % i)
+            if r['model'] is not None and [self.wproj(x) for x in r['model']] != [self.wproj(x) for x in r['impl']]:
+                bad.append('model and implementation disagree on the bytes written by the record methods')
+            if bad:
+                r['noshrink'] = True       # the shrinker would judge candidates with the writer-case oracle
+                F.append((r, bad))
+        return F, {'record_method_cases': len(cases)}
+
+    @staticmethod
+    def wproj(line):
+        pl = parse_line(line)
+        dumps = [pl['out']] if pl['kind'] == 'rec' else (set_records(pl['out']) or []) if pl['kind'] == 'set' else []
+        return [tuple(rec_fields(d).get(k) for k in ('wu', 'w', 'ww')) for d in dumps]
 
     def cross(self, results):
         """round trip: every written text parses back (with the real reader) to the header and sequence"""
@@ -937,8 +1017,15 @@ class C12(Prop):
                     bad.append('op#%d error on a well-formed file: %s' % (i, pl['out'][:60]))
                 if pl['kind'] == 'rec':
                     f = rec_fields(pl['out'])
-                    for k in ('h', 'l', 's', 'q'):
-                        if k in f and '0d' in [f[k].replace('/', '')[j:j + 2] for j in range(0, len(f[k].replace('/', '')), 2)]:
+                    # h: header, l: sequence lines (forward iteration), rl: the same lines iterated from the back,
+                    # full/own: full_seq() and the owned copy, s/q: FASTQ sequence and quality
+                    for k in ('h', 'l', 'rl', 's', 'q', 'full', 'own'):
+                        if k not in f:
+                            continue
+                        v = f[k].replace('/', '').replace('.', '')
+                        if k == 'full':
+                            v = v[1:]            # borrowed/owned tag
+                        if '0d' in [v[j:j + 2] for j in range(0, len(v) - len(v) % 2, 2)]:
                             bad.append('op#%d carriage return in returned field %s' % (i, k))
         return bad
 
@@ -1064,6 +1151,30 @@ def fault_events(ev):
 
 class C14(Prop):
     id = 'C14'
+
+    def extra(self, tier, rng, stats):
+        """source failures through the PARALLEL path: parallel_fasta / parallel_fastq(_init) over a source whose
+        j-th read fails must return that I/O error (the same the sequential reader returns), not Ok.  The runs are
+        those of the parallel properties (shared, cached); if the parallel harness cannot be built this part is
+        skipped (the reader part above does not depend on it)."""
+        seed = int(os.environ.get('VERIF_SEED', '20260927'))
+        ok, log, runs = par_runs(seed, tier)
+        F = []
+        n = 0
+        for r in runs:
+            if r.get('kind') != 'rec' or r.get('io_fail_at') is None or r.get('status') != 'done':
+                continue
+            se = r.get('seq_err')
+            if not se or not se.startswith('Io('):
+                continue
+            n += 1
+            stats['evaluations'] += 1
+            if parprops._failure_free(r) and r.get('stop_after') is None and r.get('ret') != 'Err:Parse:' + se:
+                F.append(({'case': 'par ' + parprops._cfg_brief(r) + ' ' + str(r.get('sched', '')),
+                           'impl': [_json.dumps({k: v for k, v in r.items() if k != 'events'})[:3000]],
+                           'model': None, 'spec': [], 'noshrink': True},
+                          ['the source failed (%s) while %s was reading, but the call returned %s' % (se, r.get('api'), r.get('ret'))]))
+        return F, {'parallel_runs_with_a_source_failure': n, 'parallel_harness_built': bool(ok)}
 
     def cases(self, tier, rng):
         out = []
@@ -1230,9 +1341,18 @@ class C09(Prop):
                         ops = ops[:j] + ['N', 'Y' + rng.choice(['std', 'du.7', 'plus.5.100000'])] + ops[j:] + ['N', 'N']
                     c = gen.mkcase(f, cap, text, gen.rnd_chunking(rng, len(text)), None, first, ops)
                     self.kind[c] = 'swap'
-                else:
+                elif rng.chance(1, 2):
                     c = gen.mkcase(f, cap, text, gen.rnd_chunking(rng, len(text)), None, 'std', ['S0'] * k)
                     self.kind[c] = 'sets'
+                else:
+                    # single reads, owned reads and PLAIN set reads mixed (a set read that follows a single read starts
+                    # in the middle of the buffer), with a capacity that holds every record but only a few of them:
+                    # the policy must not be asked at all
+                    ops = [rng.choice(['N', 'N', 'S0', 'S1', 'O', 'P']) for _ in range(k + 3)]
+                    capm = rng.choice([2 * cap + 4, 2 * cap + 5, 3 * cap + 2, 4 * cap + 9])
+                    c = gen.mkcase(f, capm, text, gen.rnd_chunking(rng, len(text)), None,
+                                   rng.choice(['std', 'du.%d' % rng.range(1, 12), 'plus.%d.100000' % rng.range(1, 5)]), ops)
+                    self.kind[c] = 'mixed'
                 out.append(c)
         # built-in policies on a grid around their thresholds
         grid = sorted(set([1, 2, 3, 5, 7, 8, 15, 16, 17, 100, (1 << 23) - 1, 1 << 23, (1 << 23) + 1, 1 << 24, 3 << 23]))
@@ -1294,12 +1414,12 @@ class C09(Prop):
         kind = getattr(self, 'kind', {}).get(case)
         text = bytes.fromhex(t[2]) if t[2] != '-' else b''
         items = oracles.parse_spec(f, res['spec'])
-        if kind in ('exact', 'sets', 'swap') and items and all(it['kind'] == 'rec' for it in items):
+        if kind in ('exact', 'sets', 'swap', 'mixed') and items and all(it['kind'] == 'rec' for it in items):
             wins = needed_windows(f, text, items)
             cap0 = int(t[1])
             if wins and max(wins) <= cap0 and asks:
                 bad.append('every record fits the buffer (needed windows %s, capacity %d) but the policy was asked: %s' % (wins[:6], cap0, asks[:6]))
-        if kind in ('exact', 'swap', 'sets'):
+        if kind in ('exact', 'swap', 'sets', 'mixed'):
             bad += oracles.cursor_check(f, res, level='kind', check_pos=False)
         return bad
 
@@ -1597,7 +1717,12 @@ def par_runs(seed, tier):
                 pass
         ok, log = parprops.gen_and_build(ROOT)
         if not ok:
-            return False, log, []
+            # the source text no longer runs on the shims (a primitive the shims do not offer, a changed
+            # import line, ...): the tie through trace acceptance is broken.  The black-box runner does not
+            # need the shims; run it alone so that the oracles can still look for a failing input.
+            ok2, log2 = parprops.build_bb_only(ROOT)
+            runs = parprops.run_bb(ROOT, seed, tier) if ok2 else []
+            return False, log + '\n[black-box runner alone: %s]' % ('built' if ok2 else 'build failed: ' + log2[-300:]), runs
         runs = parprops.run_shuttle(ROOT, seed, tier) + parprops.run_bb(ROOT, seed, tier)
         for f in os.listdir(d):
             if f.startswith('runs_'):
@@ -1618,9 +1743,11 @@ class ParProp(Prop):
     def extra(self, tier, rng, stats):
         seed = int(os.environ.get('VERIF_SEED', '20260927'))
         ok, log, runs = par_runs(seed, tier)
+        pre_broken = []
         if not ok:
-            return [], {'broken': ['harness_par build / generation of src/parallel.rs from %s failed: %s' % (vlib.REPO, log[-600:])],
-                        'samples': ['(parallel harness could not be built)']}
+            pre_broken = ['harness_par build / generation of src/parallel.rs from %s failed: %s' % (vlib.REPO, log[-600:])]
+            if not runs:
+                return [], {'broken': pre_broken, 'samples': ['(parallel harness could not be built)']}
         orc = parprops.ORACLES[self.id]
         F = []
         rejected = []
@@ -1654,9 +1781,11 @@ class ParProp(Prop):
                            for r in runs if r.get('type') == 'proto'][:2] +
                           [_json.dumps({k: v for k, v in r.items()})[:400] for r in runs if r.get('type') == 'bb'][:2],
                'par_describe': parprops.describe()}
+        if pre_broken:
+            cov['broken'] = pre_broken
         if rejected:
             r = rejected[0]
-            cov['broken'] = ['correspondence: %d shuttle-scheduled traces of /repo/src/parallel.rs are not traces of the Coq model Par.v (first: %s, cfg %s, schedule %s)'
+            cov['broken'] = pre_broken + ['correspondence: %d shuttle-scheduled traces of /repo/src/parallel.rs are not traces of the Coq model Par.v (first: %s, cfg %s, schedule %s)'
                              % (len(rejected), r.get('model'), r.get('cfg'), r.get('sched'))]
         return F, cov
 
